@@ -52,11 +52,24 @@ typedef struct { unsigned char t, a, b, c; } op_t;       /* type, arg, fault cod
 static const int RFCV[6] = { 0, 1, 2, 3, 4, -1 };
 #define M_DEFAULT (8|16|32|64|128|512)
 static const int MASKV[4] = { M_DEFAULT, M_DEFAULT & ~512, 4 | 1024, 0 };
-static const char *const POOL[16] = {
+static const char *POOL[20] = {
     "simple@test.com", "\"a\x01" "b\"@ok.com", "\xd0\xb6@ok.com", "a@ab--cd.com", "a@host.zzzzq", "a@example.com", "a@[192.0.2.1]", "",
     "a@\xe2\x99\xa5.de", "a@singlelabel", "a@[IPv6:2001:db8::1]", "aaaaaaaaaaaaaaaaaaaaaaaaaaaaaaaaaaaaaaaaaaaaaaaaaaaaaaaaaaaaaaaaa@ok.com",
     "a@b.abarth", "a@\xd0\xbf\xd0\xbe\xd1\x87\xd1\x82\xd0\xb0.\xd1\x80\xd1\x84", "\"a b\"@ok.com", "a@-bad.com" };
 static int NPOOL = 8, NMASK = 3;
+static int PIDX[20] = { 0, 1, 2, 3, 4, 5, 6, 7, 8, 9, 10, 11, 12, 13, 14, 15, 16, 17, 18, 19 };   /* which pool entries the menu uses */
+/* pool entries 16..19 are long: two U-label domains of > 255 UTF-8 bytes sharing their first 255 bytes (valid / unlisted TLD),
+ * an address of > 320 bytes, a single label of 300 characters */
+static char LONGA[4][1200];
+static void build_long_pool(void) {
+    char P[900]; int l = 0;
+    for (int k = 0; k < 5; k++) { for (int i = 0; i < 30; i++) { P[l++] = (char)0xd0; P[l++] = (char)(0xb0 + (i + 3 * k) % 16); } P[l++] = '.'; }
+    P[l] = 0;
+    snprintf(LONGA[0], sizeof LONGA[0], "user@%scom", P); snprintf(LONGA[1], sizeof LONGA[1], "user@%szzzzq", P);
+    { char *q = LONGA[2]; q += sprintf(q, "someone@"); for (int k = 0; k < 6; k++) { for (int i = 0; i < 55; i++) *q++ = (char)('a' + (i + k) % 26); *q++ = '.'; } strcpy(q, "com"); }
+    { char *q = LONGA[3]; q += sprintf(q, "x@"); for (int i = 0; i < 300; i++) *q++ = 'a'; *q = 0; }
+    for (int i = 0; i < 4; i++) POOL[16 + i] = LONGA[i];
+}
 static const int IDNCODES[] = { -100, -101, -102, -200, -201, -202, -203, -204, -205, -206, -207, -208, -209, -300, -301, -302, -303, -304, -305, -306, -307,
                                 -308, -309, -310, -311, -312, -313, -314, -1, -2, -999 };
 #define NCODES ((int)(sizeof IDNCODES / sizeof IDNCODES[0]))
@@ -102,7 +115,7 @@ static void violation_h(const char *sub, const char *why, const hist_t *h, const
 }
 
 /* expected outcome of eav_is_email on a FRESH object (differential oracle) */
-static char *FRESH[3][4][2][4][16][2 + 2 * 40];   /* lib, mode, tld, mask, addr, fault slot */
+static char *FRESH[3][4][2][4][20][2 + 2 * 40];   /* lib, mode, tld, mask, addr, fault slot */
 static int fresh_filling;
 static const char *fresh_outcome(int li, int mode, int tld, int mi, int ai, int fslot, op_t fop) {
     char **slot = &FRESH[li][mode][tld][mi][ai][fslot];
@@ -123,7 +136,7 @@ static const char *fresh_outcome(int li, int mode, int tld, int mi, int ai, int 
 static int fault_slot(op_t o) { return o.t == OP_EMAILF ? 1 + o.b * 2 + o.c : 0; }
 static void fresh_precompute(void) {
     fresh_filling = 1;
-    for (int li = 0; li < NLIB; li++) for (int mode = 0; mode < 4; mode++) for (int tld = 0; tld < 2; tld++) for (int mi = 0; mi < 4; mi++) for (int ai = 0; ai < 16; ai++) {
+    for (int li = 0; li < NLIB; li++) for (int mode = 0; mode < 4; mode++) for (int tld = 0; tld < 2; tld++) for (int mi = 0; mi < 4; mi++) for (int ai = 0; ai < 20; ai++) {
         op_t o = { OP_EMAIL, (unsigned char)ai, 0, 0 };
         fresh_outcome(li, mode, tld, mi, ai, 0, o);
         if (mode == 3) for (int c = 0; c < NCODES; c++) for (int b = 0; b < 2; b++) { op_t f = { OP_EMAILF, (unsigned char)ai, (unsigned char)c, (unsigned char)b }; fresh_outcome(li, mode, tld, mi, ai, fault_slot(f), f); }
@@ -283,11 +296,12 @@ static int enabled(const model_t *m, op_t *out) {
     out[n++] = (op_t){ OP_FREEINIT, 0, 0, 0 };
     if (TWO_OBJECTS) { out[n++] = (op_t){ OP_OTHER, 0, 0, 0 }; out[n++] = (op_t){ OP_OTHER, 3, 0, 0 }; out[n++] = (op_t){ OP_OTHER, 5, 0, 0 }; }
     if (m->setup_ok && !m->utf8_pending_fail) {
-        for (int a = 0; a < NPOOL; a++) out[n++] = (op_t){ OP_EMAIL, (unsigned char)a, 0, 0 };
+        for (int a = 0; a < NPOOL; a++) out[n++] = (op_t){ OP_EMAIL, (unsigned char)PIDX[a], 0, 0 };
         if (FAULTS && m->nfaults < FAULT_BOUND && m->confirmed == 3)
             for (int a = 0; a < NPOOL; a++) {
-                if (!(a == 0 || a == 3)) continue;      /* two host-name addresses reach the conversion; literals / bad local parts do not */
-                for (int c = 0; c < NCODES; c++) for (int b = 0; b < 2; b++) out[n++] = (op_t){ OP_EMAILF, (unsigned char)a, (unsigned char)c, (unsigned char)b };
+                int pa = PIDX[a];
+                if (!(pa == 0 || pa == 3 || pa == 16 || pa == 19)) continue;      /* host-name addresses that reach the conversion (two of them long); literals / bad local parts do not */
+                for (int c = 0; c < NCODES; c++) for (int b = 0; b < 2; b++) out[n++] = (op_t){ OP_EMAILF, (unsigned char)pa, (unsigned char)c, (unsigned char)b };
             }
     }
     return n;
@@ -388,6 +402,7 @@ static void bfs(long shard, void *arg) {
 
 /* ---------------------------------------------------------------- C19 (a),(b): runs of n validations with faults at every position */
 static int C_FAULTRUNS;
+static const int FAULTADDR[4] = { 0, 3, 16, 19 };
 static void fault_runs(long shard, void *arg) {
     (void)arg; int n = (int)shard + 1;           /* run length */
     hist_t h;
@@ -396,7 +411,7 @@ static void fault_runs(long shard, void *arg) {
         h.n = 0; h.op[h.n++] = (op_t){ OP_SETUP, 0, 0, 0 };
         int cap = n < HMAX - 2 ? n : HMAX - 2;
         int ppos = pos % cap;
-        for (int i = 0; i < cap; i++) h.op[h.n++] = (i == ppos) ? (op_t){ OP_EMAILF, (unsigned char)((i % 2) ? 3 : 0), (unsigned char)c, (unsigned char)b } : (op_t){ OP_EMAIL, (unsigned char)(i % NPOOL), 0, 0 };
+        for (int i = 0; i < cap; i++) h.op[h.n++] = (i == ppos) ? (op_t){ OP_EMAILF, (unsigned char)FAULTADDR[(i + c) % 4], (unsigned char)c, (unsigned char)b } : (op_t){ OP_EMAIL, (unsigned char)PIDX[i % NPOOL], 0, 0 };
         mc_current("fault-run", "", h.op, (size_t)h.n * 4);
         run_t r; run_begin(&r, 0xA5);
         for (int i = 0; i < h.n; i++) { hist_t hp = h; hp.n = i + 1; apply(&r, h.op[i], &hp, 1); }
@@ -411,7 +426,7 @@ static void fault_runs(long shard, void *arg) {
             for (int i = 0; i < n; i++) {
                 if (i == p1) h.op[h.n++] = (op_t){ OP_EMAILF, 0, (unsigned char)sub[c1], (unsigned char)(b & 1) };
                 else if (i == p2) h.op[h.n++] = (op_t){ OP_EMAILF, 3, (unsigned char)sub[c2], (unsigned char)(b >> 1) };
-                else h.op[h.n++] = (op_t){ OP_EMAIL, (unsigned char)(i % NPOOL), 0, 0 };
+                else h.op[h.n++] = (op_t){ OP_EMAIL, (unsigned char)PIDX[i % NPOOL], 0, 0 };
             }
             mc_current("fault-run2", "", h.op, (size_t)h.n * 4);
             int saveb = FAULT_BOUND; FAULT_BOUND = 99;
@@ -470,6 +485,37 @@ static void corpus_objects(void) {
 }
 static void corpus_shard(long shard, void *arg) { (void)arg; corpus_run(CURPH, shard, corpus_sink, NULL); }
 
+/* ---------------------------------------------------------------- C13: every ordered pair of a set of addresses on one object
+ * (hidden state keyed by something weaker than the address itself: a prefix, a hash, a length) */
+static char PAIRADDR[1400][24]; static int NPAIR; static char *PAIRWANT[3][1400];
+static const int PCFG[3][2] = { { 3, 1 }, { 3, 0 }, { 0, 1 } };     /* (mode, tld_check) */
+static void pairs_build(void) {
+    static const char AL[] = "abcdefghijklmnopqrstuvwxyz0123456789";
+    for (int a = 0; a < 36; a++) for (int b = 0; b < 36; b++) snprintf(PAIRADDR[NPAIR++], 24, "x@b.%c%c", AL[a], AL[b]);
+    lib_t *l = &LIB[0];
+    for (int c = 0; c < 3; c++) for (int i = 0; i < NPAIR; i++) {
+        l->ledger_reset(); l->ctx_reset(); void *o = l->new_(0); l->init(o); l->set_rfc(o, PCFG[c][0]); l->set_tld(o, PCFG[c][1]); if (l->setup(o)) exit(2);
+        int r = l->is_email(o, PAIRADDR[i], strlen(PAIRADDR[i])); char buf[512]; l->outcome(o, r, buf, sizeof buf); PAIRWANT[c][i] = strdup(buf);
+        l->free_(o); l->delete_(o);
+    }
+}
+static void pairs_shard(long shard, void *arg) {
+    (void)arg; lib_t *l = &LIB[0]; int pi = (int)shard;
+    for (int c = 0; c < 3; c++) {
+        l->ledger_reset(); l->ctx_reset(); void *o = l->new_(0xA5); l->init(o); l->set_rfc(o, PCFG[c][0]); l->set_tld(o, PCFG[c][1]); if (l->setup(o)) exit(2);
+        for (int j = 0; j < NPAIR; j++) {
+            l->is_email(o, PAIRADDR[pi], strlen(PAIRADDR[pi]));
+            int r = l->is_email(o, PAIRADDR[j], strlen(PAIRADDR[j])); char got[512]; l->outcome(o, r, got, sizeof got);
+            MC_ADD(C_EVAL, 1); MC_ADD(C_LIBCALLS, 2);
+            if (strcmp(got, PAIRWANT[c][j])) {
+                char cfg[96]; snprintf(cfg, sizeof cfg, "pair mode=%d tld=%d first=%s", PCFG[c][0], PCFG[c][1], PAIRADDR[pi]);
+                mc_violation("pairs", "pairs:outcome-depends-on-the-previous-address", "", cfg, PAIRADDR[j], strlen(PAIRADDR[j]), "after %s: %s ; fresh object: %s", PAIRADDR[pi], got, PAIRWANT[c][j]);
+            }
+        }
+        l->free_(o); l->delete_(o);
+    }
+}
+
 static int do_replay(void) {
     mc_replay_t rp; if (mc_load_replay(mc_replay, &rp)) return 2;
     hist_t h; h.n = rp.len / 4; if (h.n > HMAX) h.n = HMAX; memcpy(h.op, rp.in, (size_t)h.n * 4);
@@ -508,10 +554,12 @@ int main(int argc, char **argv) {
     C_STATES = mc_counter("states"); C_TRANS = mc_counter("transitions"); C_REPLAYS = mc_counter("histories_replayed");
     C_EMAILT = mc_counter("email_transitions_compared_with_fresh_object"); C_LIBCALLS = mc_counter("library_calls");
     C_FAULTRUNS = mc_counter("fault_runs"); mc_counter("bfs_depth_at_fixpoint"); mc_counter("distinct_email_outcomes"); mc_counter("frontier_left");
-    if (mc_thorough) { NPOOL = 16; NMASK = 4; NPOISON = 4; }
+    build_long_pool();
+    { static const int Q[11] = { 0, 1, 2, 3, 4, 5, 6, 7, 16, 17, 18 }; if (!mc_thorough) { for (int i = 0; i < 11; i++) PIDX[i] = Q[i]; NPOOL = 11; } }
+    if (mc_thorough) { NPOOL = 20; NMASK = 4; NPOISON = 4; }
     if (NOPOISON) { NPOISON = 1; }
-    if (!strcmp(PROP, "C19")) { FAULTS = 1; NPOOL = mc_thorough ? 8 : 4; NMASK = 2; NPOISON = 1; }
-    if (!strcmp(PROP, "C18")) { NPOOL = mc_thorough ? 16 : 8; NMASK = mc_thorough ? 4 : 3; NPOISON = 1; }
+    if (!strcmp(PROP, "C19")) { static const int F[8] = { 0, 3, 16, 19, 1, 5, 6, 17 }; for (int i = 0; i < 8; i++) PIDX[i] = F[i]; FAULTS = 1; NPOOL = mc_thorough ? 8 : 5; NMASK = 2; NPOISON = 1; }
+    if (!strcmp(PROP, "C18")) { NPOOL = mc_thorough ? 20 : 11; NMASK = mc_thorough ? 4 : 3; NPOISON = 1; }
     fresh_precompute();
     if (mc_replay) return do_replay();
     C_CORPUS = mc_counter("corpus_addresses_through_all_backends");
@@ -523,6 +571,7 @@ int main(int argc, char **argv) {
     }
     if (!strcmp(PROP, "C15")) { mc_parallel("eav_setup over rfc value classes x prior mode", 1, setup_values, NULL); return mc_finish(); }
     mc_parallel(CTXFAIL ? "BFS to fixpoint (idnkit build, create/initialize failures as transitions)" : FAULTS ? "BFS to fixpoint with IDN fault transitions (<=2 faults per history)" : "BFS to fixpoint over the API menu", 1, bfs, NULL);
+    if (!strcmp(PROP, "C13") && !TWO_OBJECTS && MAXDEPTH >= 40) { pairs_build(); mc_parallel("pairs: every ordered pair of the 1296 addresses x@b.XY on one object, 3 configurations", NPAIR, pairs_shard, NULL); }
     if (FAULTS) mc_parallel("runs of n validations: single fault at every position x every code x buffer; double faults n<=6", mc_thorough ? 50 : 8, fault_runs, NULL);
     /* distinct non-trivial = states reached (each a distinct canonical object state) */
     if (mc_sh->ctr[C_NONTRIV] == 0 || !FAULTS) mc_sh->ctr[C_NONTRIV] += mc_sh->ctr[C_STATES];
